@@ -176,7 +176,24 @@ pub fn master_locations<'a>(
 }
 
 pub fn to_ir_axes(axes: &[designspace::Axis]) -> Result<fontdrasil::types::Axes, Error> {
-    axes.iter().map(to_ir_axis).collect()
+    let axes = axes.iter().map(to_ir_axis).collect::<Result<Vec<_>, _>>()?;
+    // locations are keyed by axis tag (and, in the source, by axis name) so a
+    // repeated axis would be counted in fvar but not in the variation regions
+    for (i, axis) in axes.iter().enumerate() {
+        if axes[..i]
+            .iter()
+            .any(|prior| prior.tag == axis.tag || prior.name == axis.name)
+        {
+            return Err(Error::InvalidEntry(
+                "axes",
+                format!(
+                    "axis '{}' ({}) is defined more than once",
+                    axis.name, axis.tag
+                ),
+            ));
+        }
+    }
+    Ok(axes.into())
 }
 
 pub fn to_ir_axis(axis: &designspace::Axis) -> Result<fontdrasil::types::Axis, Error> {
@@ -408,6 +425,26 @@ mod tests {
             to_ir_component(&c, None).transform,
             Affine::new([0.4366, -0.4366, 0.4415, 0.4425, 282.0, 5.0])
         );
+    }
+
+    #[test]
+    fn duplicate_axis_is_an_error() {
+        let axis = |name: &str, tag: &str| designspace::Axis {
+            name: name.into(),
+            tag: tag.into(),
+            minimum: Some(400.0),
+            default: 400.0,
+            maximum: Some(700.0),
+            ..Default::default()
+        };
+        assert!(to_ir_axes(&[axis("Weight", "wght"), axis("Width", "wdth")]).is_ok());
+        for (name, tag) in [("Weight", "wght"), ("Weight", "wdth"), ("Width", "wght")] {
+            let result = to_ir_axes(&[axis("Weight", "wght"), axis(name, tag)]);
+            assert!(
+                matches!(result, Err(Error::InvalidEntry("axes", _))),
+                "{result:?}"
+            );
+        }
     }
 
     // Tilt-Fonts TiltNeon[XROT,YROT].designspace uses axis tags ("XROT") instead of names
